@@ -16,6 +16,7 @@
 //! * No device tables, no anchors of format 2/3, no FeatureVariations, no feature params.
 
 pub mod aat;
+pub mod coq;
 pub mod layout;
 pub mod selftest;
 pub mod sfnt;
